@@ -8,7 +8,7 @@ from ..terms import A, C, F, V, L, NIL, call, conj, TRUE, CUT, show_program, sho
 
 ID = 'C04'
 LEVEL = 'model_checking'
-RULE = ('(e) what a process does first: every sequence of <= 4 events over {A loads, A queries, A clears, B loads, B queries}, each in a process of its own forked from a zygote that never resolved a call, where B\'s predicates are named like A\'s registrations are filed (step_1, pair_2, ext_n, once_1): afterwards both engines give exactly their own answers; (a) two engines, generator level: every ordered pair of actor scripts from a menu of 18 (+3 scripts that register ONE shared function object - inferred, with an explicit arity, as unbound and as bound method - paired with each other and with the registering scripts) (create engine, retractall / retract of predicates the engine does not know yet, load '
+RULE = ('(e) what a process does first: every sequence of <= 4 events over {A loads, A queries, A clears, B loads, B queries}, each in a process of its own forked from a zygote that never resolved a call, where B\'s predicates are named like A\'s registrations are filed (step_1, pair_2, ext_n, once_1): afterwards both engines give exactly their own answers; (a) two engines, generator level: every ordered pair of actor scripts from a menu of 20 incl. two with fact tables of 40 and 300 facts looked up by key (+3 scripts that register ONE shared function object - inferred, with an explicit arity, as unbound and as bound method - paired with each other and with the registering scripts) (create engine, retractall / retract of predicates the engine does not know yet, load '
         'script with overwrite on/off, assert_fact, register_function, clear, atom, start/next/close of a query or a '
         'retract) x ALL merge orders of their steps (with disjoint vocabularies and, for scripts that clear or intern atoms, with the same atom names on both engines); (b) one engine: every pair (and every triple from a subset) of '
         'side-effect-free queries over disjoint variables (recursion, cut, if-then-else, negation, \\=, once, findall, '
@@ -56,6 +56,10 @@ MENU = [
     # an enumeration of dynamic facts suspended while its own engine asserts to the same predicate
     # (the logical update view of C14 - with another engine doing anything at all in between)
     [('assert', 'p', 'a1'), ('start', 'p'), ('next',), ('assert', 'p', 'late'), ('next',)],
+    # LARGE fact tables (whatever an engine builds to find facts quickly is its own): 40 and 300 facts big(k_i, v_i)
+    # with the same keys on both engines, looked up by key, also while an enumeration by key is suspended
+    [('assertmany', 'big', 40), ('askkey', 'big', 7), ('askkey', 'big', 33), ('askkey', 'big', 7)],
+    [('assertmany', 'big', 300), ('startkey', 'big', 3), ('next',), ('askkey', 'big', 270), ('next',)],
     # ONE Python function object (resp. a function and its bound method) registered on several engines
     # in different ways: what an engine calls it by is that engine's own business
     [('regshared', 'explicit-1'), ('count', 'sh', 1), ('count', 'sh', 2)],
@@ -64,7 +68,7 @@ MENU = [
 ]
 
 
-SHARED_FROM = 18
+SHARED_FROM = 20
 
 
 def SHARED(arg1, arg2=None):
@@ -109,6 +113,15 @@ class Actor:
             self.yp.load_script_from_string(self.texts[op[1]], fn=impl.SCRIPT_FN, overwrite=op[2])
         elif k == 'assert':
             self.yp.assert_fact(self.yp.atom(op[1]), [self.yp.atom('%s_%s' % (op[2], tag))])
+        elif k == 'assertmany':
+            for i in range(op[2]):
+                self.yp.assert_fact(self.yp.atom(op[1]), [self.yp.atom('k%d' % i), self.yp.atom('v%d_%s' % (i, tag))])
+        elif k == 'askkey':
+            v = self.yp.variable()
+            self.log.append(('by-key', op[2], tuple(impl.observe([v]) for _ in self.yp.query(op[1], [self.yp.atom('k%d' % op[2]), v]))))
+        elif k == 'startkey':
+            self.var = self.yp.variable()
+            self.q = self.yp.query(op[1], [self.yp.atom('k%d' % op[2]), self.var])
         elif k == 'reg':
             yp = self.yp
             marker = yp.atom('py_%s' % tag)
